@@ -58,9 +58,11 @@ def instrument(name):
     src = os.path.join(orch.VERIF, "tools", "goinstr", "main.go")
     if not os.path.exists(tool) or os.path.getmtime(tool) < os.path.getmtime(src):
         os.makedirs(os.path.dirname(tool), exist_ok=True)
-        r = subprocess.run(["go", "build", "-o", tool, src], env=orch.GOENV, stdout=subprocess.PIPE, stderr=subprocess.STDOUT, text=True)
+        tmp_tool = "%s.tmp.%d" % (tool, os.getpid())
+        r = subprocess.run(["go", "build", "-o", tmp_tool, src], env=orch.GOENV, stdout=subprocess.PIPE, stderr=subprocess.STDOUT, text=True)
         if r.returncode != 0:
             raise MachineryError("goinstr build failed:\n" + r.stdout)
+        os.replace(tmp_tool, tool)  # atomically: a concurrent run may be executing the old one
     extra = {}
     for pkg, files, rename in INSTRUMENT.get(name, []):
         if isinstance(files, str):  # "*" minus "-name" exclusions: every non-test Go file of the package in the tree
@@ -387,8 +389,8 @@ def c11(tier):
     b = build("cachefile")
     res = []
     models = {}
-    tmp = os.path.join(orch.BUILD, "c11tmp")
-    os.makedirs(tmp, exist_ok=True)
+    os.makedirs(orch.BUILD, exist_ok=True)
+    tmp = tempfile.mkdtemp(prefix="c11tmp_", dir=orch.BUILD)  # per run: another tier / a mutant run may be going on at the same time
     for proto in ("ipfix", "v9"):
         wm = observe_write_model(b, proto)
         models[proto] = wm or {"kinds": ["old", "empty", "prefix", "zerofill", "full"], "source": "ASSUMED truncate+write (strace failed)"}
@@ -427,10 +429,8 @@ def c11(tier):
 
 
 def sched_env(tag):
-    d = os.path.join(orch.BUILD, "sched_" + tag)
-    import shutil
-    shutil.rmtree(d, ignore_errors=True)
-    os.makedirs(d, exist_ok=True)
+    os.makedirs(orch.BUILD, exist_ok=True)
+    d = tempfile.mkdtemp(prefix="sched_%s_" % tag, dir=orch.BUILD)  # per run: another tier of the same check may be going on at the same time
     return d, {"GORACE": "log_path=%s/race halt_on_error=0 exitcode=0" % d, "VERIF_TMP": d, "GOMAXPROCS": "4"}
 
 
